@@ -23,6 +23,24 @@ VARIANTS['vaes'] = dict(dir='avx512_t2', files=['mb_mgr_aes128_cmac_submit_flush
                         sub={128: 'submit_job_aes128_cmac_auth_vaes_avx512', 256: 'submit_job_aes256_cmac_auth_vaes_avx512'},
                         fl={128: 'flush_job_aes128_cmac_auth_vaes_avx512', 256: 'flush_job_aes256_cmac_auth_vaes_avx512'})
 MG = dict(mgr='MB_MGR_CMAC_OOO', reset='ooo_mgr_cmac_reset')
+XMG = dict(mgr='MB_MGR_AES_XCBC_OOO', reset='ooo_mgr_aes_xcbc_reset')
+XVARIANTS = {
+    'sse': dict(dir='sse_t1', files=['mb_mgr_aes128_xcbc_submit_x4_sse.asm', 'mb_mgr_aes128_xcbc_flush_x4_sse.asm', 'aes128_xcbc_mac_x4_sse.asm'], lanes=4,
+                sub={128: 'submit_job_aes_xcbc_sse'}, fl={128: 'flush_job_aes_xcbc_sse'}),
+    'avx': dict(dir='avx2_t1', files=['mb_mgr_aes128_xcbc_submit_x8_avx.asm', 'mb_mgr_aes128_xcbc_flush_x8_avx.asm', 'aes128_xcbc_mac_x8_avx.asm'], lanes=8,
+                sub={128: 'submit_job_aes_xcbc_avx'}, fl={128: 'flush_job_aes_xcbc_avx'}),
+    'vaes': dict(dir='avx512_t2', files=['mb_mgr_aes128_xcbc_submit_flush_x16_vaes_avx512.asm', 'aes_cbc_enc_vaes_avx512.asm'], lanes=16,
+                 sub={128: 'submit_job_aes_xcbc_vaes_avx512'}, fl={128: 'flush_job_aes_xcbc_vaes_avx512'}),
+}
+
+
+def xoffsets(ctx):
+    items = [('in', 'offsetof(MB_MGR_AES_XCBC_OOO,args.in)'), ('keys', 'offsetof(MB_MGR_AES_XCBC_OOO,args.keys)'), ('IV', 'offsetof(MB_MGR_AES_XCBC_OOO,args.ICV)'),
+             ('lens', 'offsetof(MB_MGR_AES_XCBC_OOO,lens)'), ('scratch', 'offsetof(MB_MGR_AES_XCBC_OOO,ldata)'), ('road', 'offsetof(MB_MGR_AES_XCBC_OOO,road_block)'),
+             ('JOB_SZ', 'sizeof(IMB_JOB)'), ('J_src', 'offsetof(IMB_JOB,src)'), ('J_hoff', 'offsetof(IMB_JOB,hash_start_src_offset_in_bytes)'),
+             ('J_hlen', 'offsetof(IMB_JOB,msg_len_to_hash_in_bytes)'), ('J_tag', 'offsetof(IMB_JOB,auth_tag_output)'), ('J_taglen', 'offsetof(IMB_JOB,auth_tag_output_len_in_bytes)'),
+             ('J_key', 'offsetof(IMB_JOB,u.XCBC._k1_expanded)'), ('J_k1', 'offsetof(IMB_JOB,u.XCBC._k2)'), ('J_k2', 'offsetof(IMB_JOB,u.XCBC._k3)'), ('J_status', 'offsetof(IMB_JOB,status)')]
+    return native.offsets(ctx, ['#include "intel-ipsec-mb.h"', '#include "include/ipsec_ooo_mgr.h"'], items)
 
 
 def offsets(ctx):
@@ -35,7 +53,7 @@ def offsets(ctx):
     return native.offsets(ctx, ['#include "intel-ipsec-mb.h"', '#include "include/ipsec_ooo_mgr.h"'], items)
 
 
-def spec_cmac(msg, nbits, ks, rounds, k1, k2, taglen):
+def spec_cmac(msg, nbits, ks, rounds, k1, k2, taglen, empty_is_padded=True):
     """msg: byte terms covering ceil(nbits/8) bytes; returns (tag bytes, chaining values)"""
     nbytes = (nbits + 7) // 8
     rbits = nbits % 8
@@ -69,24 +87,25 @@ class CResult:
         self.src = {}
 
 
-def run_scenario(ctx, variant, bits, nbits, taglens=None, hoff=0, safe_data=True, res=None, sabotage=None):
+def run_scenario(ctx, variant, bits, nbits, taglens=None, hoff=0, safe_data=True, res=None, sabotage=None, alg='cmac'):
     """nbits: message length in BITS of each job (a multiple of 8 for plain CMAC)."""
     res = res or CResult()
-    V = VARIANTS[variant]
-    O = offsets(ctx)
+    xc = alg == 'xcbc'        # AES-XCBC-MAC-96 (RFC 3566): same CBC-MAC skeleton, K2 on a complete last block, 10* padding and K3 otherwise, lengths in bytes, 12-byte tag
+    V = (XVARIANTS if xc else VARIANTS)[variant]
+    O = xoffsets(ctx) if xc else offsets(ctx)
     rounds = {128: 10, 256: 14}[bits]
     KS = 16 * (rounds + 1)
     drop = () if safe_data else ('-DSAFE_DATA',)
     from vlib.asmx.link import link_units
-    out = os.path.join(ctx.scratch, 'cmac_%s_%d%s.o' % (variant, bits, '' if safe_data else '_ns'))
+    out = os.path.join(ctx.scratch, '%s_%s_%d%s.o' % (alg, variant, bits, '' if safe_data else '_ns'))
     link_units(ctx, ['%s/%s' % (V['dir'], f) for f in V['files']] + ['x86_64/const.asm'], out, drop=drop)
     obj = Obj(out)
     res.src.update(ctx.functions)
-    img = reset_image(ctx, 'cmac', V['lanes'], MG)
+    img = reset_image(ctx, alg, V['lanes'], XMG if xc else MG)
     nj = len(nbits)
-    taglens = taglens or [(16, 12, 4, 8)[i % 4] for i in range(nj)]
+    taglens = taglens or ([12] * nj if xc else [(16, 12, 4, 8)[i % 4] for i in range(nj)])
     script = [('s', i) for i in range(nj)] + [('f',)] * (nj + 1)
-    name = 'cmac-%d %s bits=%s tags=%s%s' % (bits, variant, list(nbits), list(taglens), ' hoff=%d' % hoff if hoff else '')
+    name = '%s-%d %s bits=%s tags=%s%s' % (alg, bits, variant, list(nbits), list(taglens), ' hoff=%d' % hoff if hoff else '')
     t0 = time.time()
     E = Engine(obj, mode='precise', max_steps=600000, loop_bound=200)
     st = State()
@@ -107,7 +126,7 @@ def run_scenario(ctx, variant, bits, nbits, taglens=None, hoff=0, safe_data=True
         rtag = Region('tag%d' % i, base + 0x12000, taglens[i])
         st.regions += [rmsg, rks, rk1, rk2, rtag]
         oj = i * O['JOB_SZ']
-        for f, v in (('J_src', base), ('J_hoff', hoff), ('J_hlen', nb), ('J_tag', rtag.base), ('J_taglen', taglens[i]), ('J_key', rks.base), ('J_k1', rk1.base), ('J_k2', rk2.base)):
+        for f, v in (('J_src', base), ('J_hoff', hoff), ('J_hlen', nb // 8 if xc else nb), ('J_tag', rtag.base), ('J_taglen', taglens[i]), ('J_key', rks.base), ('J_k1', rk1.base), ('J_k2', rk2.base)):
             for k in range(8):
                 jobs.bytes[oj + O[f] + k] = BitVecVal((v >> (8 * k)) & 0xff, 8)
         J.append(dict(addr=JOBS + oj, off=oj, L=L))
@@ -162,7 +181,7 @@ def run_scenario(ctx, variant, bits, nbits, taglens=None, hoff=0, safe_data=True
             k1, k2 = rd(snap['skeya%d' % i], 0, 16), rd(snap['skeyb%d' % i], 0, 16)
             if sabotage == 'oracle':
                 k1, k2 = k2, k1
-            exp, chain = spec_cmac(msg, nbits[i], ks, rounds, k1, k2, taglens[i])
+            exp, chain = spec_cmac(msg, nbits[i], ks, rounds, k1, k2, taglens[i], empty_is_padded=True)
             inner += chain[:-1]
             got = [R['tag%d' % i].get(k) for k in range(taglens[i])]
             t1 = time.time()
@@ -170,10 +189,10 @@ def run_scenario(ctx, variant, bits, nbits, taglens=None, hoff=0, safe_data=True
                 r = unsat
             else:
                 r, m = E.check(f, Or(*[g != e for g, e in zip(got, exp)]))
-            res.obl.append((pre + 'C02 job %d (%d bits, tag %d): tag == AES-CMAC-%d(K1/K2 rule, 10* padding) over uninterpreted AES rounds for all message/key bytes' % (i, nbits[i], taglens[i], bits),
+            res.obl.append((pre + 'C02 job %d (%d bits, tag %d): tag == %s(complete-block key / 10* padding key rule) over uninterpreted AES rounds for all message/key bytes' % (i, nbits[i], taglens[i], 'AES-XCBC-MAC-96' if xc else 'AES-CMAC-%d' % bits),
                             (True if r == unsat else (False if r == sat else None)), str(r), time.time() - t1))
             if r == sat:
-                res.viol.append(('C02:%s:job%d:tag' % (name, i), 'tag of job %d (%d bits) differs from AES-CMAC-%d' % (i, nbits[i], bits)))
+                res.viol.append(('C02:%s:job%d:tag' % (name, i), 'tag of job %d (%d bits) differs from %s' % (i, nbits[i], 'AES-XCBC-MAC-96' if xc else 'AES-CMAC-%d' % bits)))
             stn = rd(R['jobs'], j['off'] + O['J_status'], 4)
             r, m = E.check(f, stn != (stat0[i] | 2))
             res.obl.append((pre + 'C14 job %d: status == previous | COMPLETED_AUTH' % i, r == unsat, str(r), 0))
@@ -189,11 +208,35 @@ def run_scenario(ctx, variant, bits, nbits, taglens=None, hoff=0, safe_data=True
         if not ok:
             res.viol.append(('C07:%s' % name, 'access outside the caller objects: %s' % (['%s %s(+%d bytes) at .text+%x' % (x[0], x[4], x[2], x[3] or 0) for x in f.faults[:3]],)))
         if safe_data or sabotage == 'nosafe':
+            inner_bytes = [simplify(Extract(8 * k + 7, 8 * k, s_)) for s_ in inner for k in range(16)]
+
+            def raw(term, memo):
+                k = term.get_id()
+                if k in memo:
+                    return memo[k]
+                memo[k] = False
+                d = term.decl().name()
+                if term.num_args() == 0:
+                    r_ = (not is_bv_value(term)) and d.startswith(('msg', 'ks', 'skey'))
+                elif d.startswith('aes'):
+                    r_ = False        # the value went through an AES round chain: neither the key nor the message can be read off it
+                else:
+                    r_ = any(raw(c, memo) for c in term.children())
+                memo[k] = r_
+                return r_
+
             def dirty(term):
+                # residue = a message / round-key / sub-key byte that did not pass through AES (this includes M_last ^ K in the scratch
+                # block), or a CBC-MAC chaining value of a completed job other than its final value (the untruncated MAC is not key material)
                 if is_bv_value(term):
                     return False
-                s_ = term.sexpr()
-                return 'msg' in s_ or 'ks' in s_ or 'skey' in s_
+                if raw(term, {}):
+                    return True
+                if 'aes' not in term.sexpr()[:4000]:
+                    return False
+                if term.size() != 8:
+                    return any(dirty(simplify(Extract(8 * k + 7, 8 * k, term))) for k in range(term.size() // 8))
+                return any(is_true(simplify(term == fb)) for fb in inner_bytes)
             leaks = []
             for o in range(O['road']):
                 if O['in'] <= o < O['in'] + 128 or O['keys'] <= o < O['keys'] + 128:
@@ -218,8 +261,8 @@ def run_scenario(ctx, variant, bits, nbits, taglens=None, hoff=0, safe_data=True
     return res
 
 
-def scenarios(variant, quick):
-    nl = VARIANTS[variant]['lanes']
+def scenarios(variant, quick, alg='cmac'):
+    nl = (XVARIANTS if alg == 'xcbc' else VARIANTS)[variant]['lanes']
     byte_lens = [16, 1, 15, 17, 32, 33, 40, 64, 100, 0, 31, 48, 5, 80, 16, 2, 47]
     if not quick:
         byte_lens += [3, 7, 8, 9, 14, 18, 30, 34, 63, 65, 96, 127, 128, 129, 200, 255, 256, 257]
@@ -232,14 +275,15 @@ def scenarios(variant, quick):
             ls.append(byte_lens[(i + n + k) % len(byte_lens)])
             k += 1
         out.append(dict(nbits=[8 * l for l in ls]))
-    out.append(dict(nbits=[3, 129, 127, 135, 77, 260, 8, 1], hoff=0))       # 3GPP bit lengths
+    if alg == 'cmac':
+        out.append(dict(nbits=[3, 129, 127, 135, 77, 260, 8, 1], hoff=0))       # 3GPP bit lengths
     out.append(dict(nbits=[8 * 20, 8 * 7], hoff=5))
     return out
 
 
 def _task(a):
     import traceback
-    variant, bits, kw = a
+    variant, bits, kw = a[:3]
     from vlib.core import Ctx
     c = Ctx('asmx_worker', 'quick', 0)
     try:
@@ -259,6 +303,9 @@ def run_family(ctx, prop):
         for bits in (128, 256):
             for kw in scenarios(variant, quick):
                 tasks.append((variant, bits, kw))
+    for variant in XVARIANTS:
+        for kw in scenarios(variant, quick, 'xcbc'):
+            tasks.append((variant, 128, dict(kw, alg='xcbc')))
     if prop == 'C02':
         tasks.append(('sse', 128, dict(nbits=[128, 160], sabotage='oracle')))
     if prop == 'C07':
@@ -266,7 +313,7 @@ def run_family(ctx, prop):
     if prop == 'C13':
         tasks.append(('sse', 128, dict(nbits=[160, 128], safe_data=False, sabotage='nosafe')))
     want = {'C02': (' C02',), 'C04': (' C02 job',), 'C07': (' C07 ',), 'C13': (' C13 ',), 'C14': (' C14 ',)}[prop]
-    ctx.bounds['cmac_managers'] = ('submit/flush_job_aes{128,256}_cmac_auth_{x8_sse, avx, vaes_avx512} with their real CBC-MAC kernels, from the image of the real reset routine; scripts of lanes+1 '
+    ctx.bounds['cmac_managers'] = ('submit/flush_job_aes{128,256}_cmac_auth_{x8_sse, avx, vaes_avx512} and submit/flush_job_aes_xcbc_{sse, avx, vaes_avx512} with their real CBC-MAC kernels, from the image of the real reset routine; scripts of lanes+1 '
                                    'submits then flushes; message lengths (bytes) %s, 3GPP bit lengths [3,129,127,135,77,260,8,1]; tag lengths 4/8/12/16; message, round keys, K1/K2 symbolic' %
                                    sorted(set(b // 8 for s in scenarios('sse', quick)[:-2] for b in s['nbits'])))
     tot = dict(steps=0, queries=0)
